@@ -732,6 +732,7 @@ class Interp:
                 if self.onerr[0] == 'next':
                     return on_next
                 prev = self.cur_stmt
+                self.part = saved          # the handler's statements are not part of this line
                 act = self.run_handler(self.onerr[1])
                 self.cur_stmt = prev
                 if act == 'next':
